@@ -438,6 +438,10 @@ static inline int myth_create_ex_body(myth_thread_t * id,
   // Initialize thread descriptor
   init_myth_thread_struct(env, new_thread);
   new_thread->result = arg;
+  if (attr && attr->detachstate) {
+    /* created detached: nobody will join it, the thread releases its own descriptor */
+    new_thread->detached = 1;
+  }
   MYTH_VERIF_POINT(MYTH_VP_CREATE_BEGIN, new_thread, stk, child_first);
 
   size_t stk_size = stack_size - sizeof(void*) * 2;
